@@ -145,6 +145,13 @@ func c11scenario(c c11cfg) *explore.Scenario {
 							sock.Inject(udpRemotes[name], []byte(p))
 							injected[name] = append(injected[name], p)
 							lateInjected = true
+							// the stale handle is closed once more (Close is idempotent) after the remote's
+							// fresh connection exists; a further datagram still belongs to that connection
+							zzvsched.WaitIdle()
+							_ = cn.Close()
+							p2 := name + "-late2"
+							sock.Inject(udpRemotes[name], []byte(p2))
+							injected[name] = append(injected[name], p2)
 						})
 					}
 				}
